@@ -453,7 +453,7 @@ def run(ctx):
     trans = graph.parse_transitions(r['out'])
     with open(argsf) as f:
         args = json.load(f)
-    if len(trans) < 5000 or len(args) != len(cat['items']):
+    if len(trans) < 2000 or len(args) != len(cat['items']):
         raise core.MachineryError('too few model transitions (%d) / argument tables (%d)' % (len(trans), len(args)))
     ctx.cov['model_transitions'] = len(trans)
     ctx.cov['model_states'] = r['distinct']
